@@ -4,7 +4,7 @@ current /repo and the property's quick check is run; only entries that behave as
 /verif/selftest/mutants/<ID>.json (the others are printed for inspection)."""
 import json, os, sys
 from concurrent.futures import ThreadPoolExecutor
-sys.path.insert(0, '/verif')
+import os; sys.path.insert(0, os.path.dirname(os.path.dirname(os.path.abspath(__file__))))
 from cqverif import scratch
 
 V, H = "violation", "holds"
@@ -12,6 +12,8 @@ PD = "src/place_detailed/"
 PG = "src/place_global/"
 M = {
  "C01": [
+  ("tetris-interval-end-one-past-the-last-position", PD + "tetris_legalizer.cpp", "    int e = rows_[r].maxX - w;\n    if (e >= b) {", "    int e = rows_[r].maxX - w + 1;\n    if (e > b) {", V, ["IB"]),
+  ("benign-tetris-interval-end-through-a-named-local", PD + "tetris_legalizer.cpp", "    int e = rows_[r].maxX - w;\n    if (e >= b) {", "    const int lastPos = rows_[r].maxX - w;\n    int e = lastPos;\n    if (b <= e) {", H, []),
   ("abacus-downward-sweep-misses-row-0", PD + "abacus_legalizer.cpp", "  for (int row = initialRow - 1; row >= 0; --row) {", "  for (int row = initialRow - 1; row > 0; --row) {", V, ["RS"]),
   ("benign-downward-sweep-gt-minus-one", PD + "abacus_legalizer.cpp", "  for (int row = initialRow - 1; row >= 0; --row) {", "  for (int row = initialRow - 1; row > -1; --row) {", H, []),
   ("interval-intersection-de-morgan-slip", PD + "tetris_legalizer.cpp", "      if (b1 <= e2 && b2 <= e1) {\n        ret.emplace_back(std::max(b1, b2), std::min(e1, e2));\n      }", "      if (b1 > e2 && b2 > e1) {\n        continue;\n      }\n      ret.emplace_back(std::max(b1, b2), std::min(e1, e2));", V, ["IE"]),
@@ -23,6 +25,9 @@ M = {
   ("benign-reorder-commit", PD + "abacus_legalizer.cpp", "  rowToCells_[bestRow].push_back(cell);\n  cellIsPlaced_[cell] = true;", "  cellIsPlaced_[cell] = true;\n  rowToCells_[bestRow].push_back(cell);", H, []),
  ],
  "C02": [
+  ("shift-write-back-skips-pinless-cells", PD + "place_detailed.cpp", "    int pos = ns.potential(cell_nodes[c]) - ns.potential(fixed);\n    placement_.cellX_[c] = pos;", "    if (xtopo_.nbCellPins(c) == 0) {\n      continue;\n    }\n    int pos = ns.potential(cell_nodes[c]) - ns.potential(fixed);\n    placement_.cellX_[c] = pos;", V, ["LW"]),
+  ("reorder-position-carried-across-orderings", PD + "place_detailed.cpp", "    // Iterate on all possible orderings\n    while (\n        std::next_permutation(order_[rowInd].begin(), order_[rowInd].end())) {\n      // Setup the positions\n      positions_[rowInd].clear();\n      int predPos = regions_[rowInd].minPos;\n", "    // Iterate on all possible orderings\n    int predPos = regions_[rowInd].minPos;\n    while (\n        std::next_permutation(order_[rowInd].begin(), order_[rowInd].end())) {\n      // Setup the positions\n      positions_[rowInd].clear();\n", V, ["RP"]),
+  ("benign-position-declared-outside-reset-inside", PD + "place_detailed.cpp", "    // Iterate on all possible orderings\n    while (\n        std::next_permutation(order_[rowInd].begin(), order_[rowInd].end())) {\n      // Setup the positions\n      positions_[rowInd].clear();\n      int predPos = regions_[rowInd].minPos;\n", "    // Iterate on all possible orderings\n    int predPos = 0;\n    while (\n        std::next_permutation(order_[rowInd].begin(), order_[rowInd].end())) {\n      // Setup the positions\n      positions_[rowInd].clear();\n      predPos = regions_[rowInd].minPos;\n", H, []),
   ("place-without-canPlace", PD + "detailed_placement.cpp", "  if (!canPlace(c, row, pred, x)) {\n    throw std::runtime_error(\"Cannot place the cell\");\n  }\n", "", V, ["G3"]),
   ("swap-accepted-when-infeasible", PD + "place_detailed.cpp", "    auto [feasible, val] = valueOnSwap(c, candidate);\n    if (feasible && val < bestValue) {\n      found = true;\n      bestCandidate = candidate;\n    }\n  }\n  if (found) {\n    doSwap(c, bestCandidate);\n  }\n  return found;", "    auto [feasible, val] = valueOnSwap(c, candidate);\n    if (val < bestValue) {\n      found = true;\n      bestCandidate = candidate;\n    }\n  }\n  if (found) {\n    doSwap(c, bestCandidate);\n  }\n  return found;", V, ["MV"]),
   ("callback-before-export", PD + "place_detailed.cpp", "  exportPlacement(circuit_);\n  callback_.value()(PlacementStep::Detailed);", "  callback_.value()(PlacementStep::Detailed);\n  exportPlacement(circuit_);", V, ["R1"]),
@@ -38,6 +43,7 @@ M = {
   ("benign-guard-idiom", PG + "net_model.cpp", "    if (!circuit.isFixed(i)) {\n      circuit.cellX_[i] = std::round(xplace[i] - 0.5f * circuit.placedWidth(i));\n    }", "    if (circuit.isFixed(i)) {\n      continue;\n    }\n    circuit.cellX_[i] = std::round(xplace[i] - 0.5f * circuit.placedWidth(i));", H, []),
  ],
  "C04": [
+  ("legalizer-given-the-circuits-polarity-vector", PD + "legalizer.cpp", "  return Legalizer(circuit.computeRows(), widths, heights, polarities, x, y,\n                   orient);", "  return Legalizer(circuit.computeRows(), widths, heights,\n                   circuit.cellRowPolarity_, x, y, orient);", V, ["CA"]),
   ("opposite-table-wrong", "src/parameters.cpp", "    case CellOrientation::N:\n      return CellOrientation::FS;", "    case CellOrientation::N:\n      return CellOrientation::FN;", V, ["T1"]),
   ("NW-polarity-misses-FW", "src/parameters.cpp", "        rowOrientation == CellOrientation::FW ||\n        rowOrientation == CellOrientation::W) {", "        rowOrientation == CellOrientation::W) {", V, ["T2"]),
   ("abacus-admits-invalid", PD + "abacus_legalizer.cpp", "  if (getOrientation(cell, row) == CellOrientation::INVALID) {\n    return std::make_pair(false, 0);\n  }\n", "", V, ["SA"]),
@@ -46,6 +52,7 @@ M = {
   ("benign-isTurn-reorder", "src/parameters.cpp", "  return orient == CellOrientation::E || orient == CellOrientation::W ||", "  return orient == CellOrientation::W || orient == CellOrientation::E ||", H, []),
  ],
  "C05": [
+  ("shift-reads-y-offsets-for-x", PD + "place_detailed.cpp", "      int pin_offs = xtopo_.netPinOffset(net, i);", "      int pin_offs = ytopo_.netPinOffset(net, i);", V, ["AX"]),
   ("acceptance-reversed", PD + "place_detailed.cpp", "    auto [feasible, val] = valueOnInsert(c, row, candidate);\n    if (feasible && val < bestValue) {", "    auto [feasible, val] = valueOnInsert(c, row, candidate);\n    if (feasible && val > bestValue) {", V, ["G8"]),
   ("probe-not-restored", PD + "place_detailed.cpp", "  updateCellPos(c, newP);\n  long long newValue = value();\n  updateCellPos(c, oldP);\n", "  updateCellPos(c, newP);\n  long long newValue = value();\n", V, ["R3"]),
   ("insert-without-model-update", PD + "place_detailed.cpp", "  placement_.insert(c, row, pred);\n  updateCellPos(c);\n", "  placement_.insert(c, row, pred);\n", V, ["R4"]),
@@ -53,6 +60,10 @@ M = {
   ("benign-mirrored-comparison", PD + "place_detailed.cpp", "    auto [feasible, val] = valueOnInsert(c, row, candidate);\n    if (feasible && val < bestValue) {", "    auto [feasible, val] = valueOnInsert(c, row, candidate);\n    if (feasible && bestValue > val) {", H, []),
  ],
  "C06": [
+  ("clipped-row-shifted-instead-of-shrunk", PG + "density_grid.cpp", "    clippedRows.emplace_back(row.minX + margin, row.maxX - margin, row.minY,\n                             row.maxY);", "    clippedRows.emplace_back(row.minX + margin, row.maxX + margin, row.minY,\n                             row.maxY);", V, ["CR"]),
+  ("benign-clipped-row-through-named-locals", PG + "density_grid.cpp", "    clippedRows.emplace_back(row.minX + margin, row.maxX - margin, row.minY,\n                             row.maxY);", "    const int clippedMinX = row.minX + margin;\n    const int clippedMaxX = row.maxX - margin;\n    clippedRows.emplace_back(clippedMinX, clippedMaxX, row.minY, row.maxY);", H, []),
+  ("blend-weight-clamped", PG + "place_global.cpp", "                                  float blending) {\n  if (blending == 0.0f) {", "                                  float blending) {\n  blending = std::min(std::max(blending, 0.0f), 1.0f);\n  if (blending == 0.0f) {", V, ["CR"]),
+  ("callback-sees-x-and-y-exchanged", PG + "place_global.cpp", "      callback(PlacementStep::PenaltyUpdate, xPlacementUB_, yPlacementUB_);", "      callback(PlacementStep::PenaltyUpdate, yPlacementUB_, xPlacementUB_);", V, ["QA"]),
   ("single-target-returned-unspread", PG + "density_grid.cpp", "  assert(targets.size() == demands.size());\n  std::vector<std::pair<float, int> > order;", "  assert(targets.size() == demands.size());\n  if (targets.size() <= 1) {\n    return targets;\n  }\n  std::vector<std::pair<float, int> > order;", V, ["SB"]),
   ("benign-empty-targets-returned", PG + "density_grid.cpp", "  assert(targets.size() == demands.size());\n  std::vector<std::pair<float, int> > order;", "  assert(targets.size() == demands.size());\n  if (targets.empty()) {\n    return targets;\n  }\n  std::vector<std::pair<float, int> > order;", H, []),
   ("blend-mixes-axes", PG + "place_global.cpp", "  std::vector<float> yplace = blendPlacement(yPlacementLB_, yPlacementUB_, w);", "  std::vector<float> yplace = blendPlacement(yPlacementLB_, xPlacementUB_, w);", V, ["QB"]),
@@ -66,6 +77,9 @@ M = {
   ("benign-blend-reordered", PG + "place_global.cpp", "    ret.push_back((1.0f - blending) * v1[i] + blending * v2[i]);", "    ret.push_back(blending * v2[i] + (1.0f - blending) * v1[i]);", H, []),
  ],
  "C07": [
+  ("light-star-stamps-a-possibly-fixed-pin-as-moving", PG + "net_model.cpp", "        addPin(c, starC, topo_.pinOffset(net, i), pos - starPos, w1 + w2);", "        addMovingPin(c, starC, topo_.pinOffset(net, i), pos - starPos, w1 + w2);", V, ["MC"]),
+  ("benign-light-star-tests-the-cell-itself", PG + "net_model.cpp", "        addPin(c, starC, topo_.pinOffset(net, i), pos - starPos, w1 + w2);", "        if (c >= 0) {\n          addMovingPin(c, starC, topo_.pinOffset(net, i), pos - starPos, w1 + w2);\n        } else {\n          addPin(c, starC, topo_.pinOffset(net, i), pos - starPos, w1 + w2);\n        }", H, []),
+  ("rough-legalizer-margin-and-bin-size-exchanged", PG + "place_global.cpp", "          circuit, params.global.roughLegalization.binSize,\n          params.global.roughLegalization.sideMargin)),", "          circuit, params.global.roughLegalization.sideMargin,\n          params.global.roughLegalization.binSize)),", V, ["SW"]),
   ("product-widened-late", PD + "row_legalizer.cpp", "    cur_cost += static_cast<long long>(old_pos - cur_pos) * (slope + width);", "    cur_cost += (old_pos - cur_pos) * (slope + width);", V, ["M1"]),
   ("area-in-int", "src/coloquinte.hpp", "  long long area() const { return (long long)width() * (long long)height(); }", "  long long area() const { return width() * height(); }", V, ["M1"]),
   ("cost-narrowed", PD + "abacus_legalizer.cpp", "  long long dist =\n      rowLegalizers_[row].getCost(cellWidth_[cell], cellTargetX_[cell]);", "  int dist =\n      rowLegalizers_[row].getCost(cellWidth_[cell], cellTargetX_[cell]);", V, ["M2"]),
@@ -81,7 +95,7 @@ M = {
  "C08": [
   ("function-local-static", PG + "place_global.cpp", "  float totalDemand = leg_.totalDemand();\n  float avgDemand", "  static float totalDemand = leg_.totalDemand();\n  float avgDemand", V, ["Z1"]),
   ("seed-from-random-device", PG + "place_global.cpp", "  rgen_.seed(params_.seed);", "  rgen_.seed(std::random_device()());", V, ["Z3"]),
-  ("async-gets-a-reference", PG + "place_global.cpp", "&xtopo_,\n                 xPlacementLB_, xTarget, penalty, params);", "&xtopo_,\n                 xPlacementLB_, xTarget, std::cref(penalty), params);", V, ["A1"]),
+  ("benign-async-gets-a-const-reference-to-a-local-nobody-writes", PG + "place_global.cpp", "&xtopo_,\n                 xPlacementLB_, xTarget, penalty, params);", "&xtopo_,\n                 xPlacementLB_, xTarget, std::cref(penalty), params);", H, []),
   ("unordered-iteration-unsorted", PD + "place_detailed.cpp", "  std::vector<int> nets(net_set.begin(), net_set.end());\n  std::sort(nets.begin(), nets.end());\n", "  std::vector<int> nets(net_set.begin(), net_set.end());\n", V, ["D2"]),
   ("reads-coordinates-back", PG + "place_global.cpp", "void GlobalPlacer::runUB() {\n  updateCellSizes();", "void GlobalPlacer::runUB() {\n  updateCellSizes();\n  xPlacementUB_[0] += circuit_.x(0);", V, ["D3"]),
   ("future-not-joined", PG + "place_global.cpp", "  xPlacementLB_ = x.get();\n  yPlacementLB_ = y.get();", "  xPlacementLB_ = x.get();\n  if (step_ > 1) yPlacementLB_ = y.get();", V, ["A1"]),
@@ -96,6 +110,10 @@ M = {
   ("benign-isTurn-reorder", "src/parameters.cpp", "  return orient == CellOrientation::E || orient == CellOrientation::W ||", "  return orient == CellOrientation::W || orient == CellOrientation::E ||", H, []),
  ],
  "C10": [
+  ("size-flag-cleared-twice-net-flag-never", PD + "place_detailed.cpp", "  circuit.hasCellSizeUpdate_ = false;\n  circuit.hasNetUpdate_ = false;", "  circuit.hasCellSizeUpdate_ = false;\n  circuit.hasCellSizeUpdate_ = false;", V, ["FL"]),
+  ("benign-update-flags-cleared-in-the-other-order", PD + "place_detailed.cpp", "  circuit.hasCellSizeUpdate_ = false;\n  circuit.hasNetUpdate_ = false;", "  circuit.hasNetUpdate_ = false;\n  circuit.hasCellSizeUpdate_ = false;", H, []),
+  ("legalizer-skips-empty-cells-export-does-not", PD + "legalizer.cpp", "    widths.push_back(circuit.placedWidth(i));", "    if (circuit.area(i) == 0) {\n      continue;\n    }\n    widths.push_back(circuit.placedWidth(i));", V, ["CA"]),
+  ("benign-compact-vectors-pushed-in-another-order", PD + "legalizer.cpp", "    widths.push_back(circuit.placedWidth(i));\n    heights.push_back(circuit.placedHeight(i));", "    heights.push_back(circuit.placedHeight(i));\n    widths.push_back(circuit.placedWidth(i));", H, []),
   ("empty-net-accepted-while-busy", "src/coloquinte.cpp", "  checkNotInUse();\n  if (cells.empty()) {\n    return;\n  }", "  if (cells.empty()) {\n    return;\n  }\n  checkNotInUse();", V, ["G10"]),
   ("setRows-without-busy-check", "src/coloquinte.cpp", "void Circuit::setRows(const std::vector<Row> &r) {\n  checkNotInUse();\n", "void Circuit::setRows(const std::vector<Row> &r) {\n", V, ["G10"]),
   ("guard-after-the-placer", "src/coloquinte.cpp", "  InUseGuard guard(isInUse_);\n  GlobalPlacer::place(*this, params, callback);", "  GlobalPlacer::place(*this, params, callback);\n  InUseGuard guard(isInUse_);", V, ["X1"]),
@@ -103,6 +121,9 @@ M = {
   ("benign-try-catch-idiom", "src/coloquinte.cpp", "  InUseGuard guard(isInUse_);\n  GlobalPlacer::place(*this, params, callback);", "  isInUse_ = true;\n  try {\n    GlobalPlacer::place(*this, params, callback);\n  } catch (...) {\n    isInUse_ = false;\n    throw;\n  }\n  isInUse_ = false;", H, []),
  ],
  "C12": [
+  ("prediction-on-a-shifted-target", PD + "row_legalizer.cpp", "  return getDisplacement(width, targetPos, false);", "  return getDisplacement(width, targetPos - begin_, false);", V, ["PA"]),
+  ("pop-limit-forgets-row-begin", PD + "row_legalizer.cpp", "bounds.top().absolutePos > end_ - usedSpace() - width)) {", "bounds.top().absolutePos > remainingSpace() - width)) {", V, ["LC"]),
+  ("benign-pop-limit-through-getter", PD + "row_legalizer.cpp", "bounds.top().absolutePos > end_ - usedSpace() - width)) {", "bounds.top().absolutePos > begin_ + remainingSpace() - width)) {", H, []),
   ("leftover-bound-at-uncommitted-position", PD + "row_legalizer.cpp", "      bounds.push(Bound(slope, finalAbsPos));", "      bounds.push(Bound(slope, cur_pos));", V, ["BQ"]),
   ("benign-leftover-bound-at-min-of-both", PD + "row_legalizer.cpp", "      bounds.push(Bound(slope, finalAbsPos));", "      bounds.push(Bound(slope, std::min(cur_pos, finalAbsPos)));", H, []),
   ("clear-half-empties-queue", PD + "row_legalizer.cpp", "  bounds = std::priority_queue<Bound>();", "  for (size_t i = 0; i < bounds.size(); ++i) {\n    bounds.pop();\n  }", V, ["QP"]),
@@ -118,11 +139,19 @@ M = {
   ("benign-save-always", PD + "row_legalizer.cpp", "    if (not update) {\n      passed_bounds.push_back(bounds.top());\n    }\n", "    passed_bounds.push_back(bounds.top());\n", H, []),
  ],
  "C14": [
+  ("assign-position-in-float", PG + "transportation_1d.cpp", "    long long assignPos = p[i] + S[i] + s[i] / 2;", "    long long assignPos = p[i] + S[i] + 0.5f * s[i];", V, ["NF"]),
+  ("benign-assign-position-long-literal", PG + "transportation_1d.cpp", "    long long assignPos = p[i] + S[i] + s[i] / 2;", "    long long assignPos = p[i] + S[i] + s[i] / 2LL;", H, []),
+  ("balance-divides-by-source-count", PG + "transportation_1d.cpp", "  long long added = missing / nbSinks();", "  long long added = missing / nbSources();", V, ["QI"]),
   ("solution-indices-swapped", PG + "transportation_1d.cpp", "    ret.emplace_back(srcOrder[i], snkOrder[j], a);", "    ret.emplace_back(srcOrder[j], snkOrder[i], a);", V, ["QI"]),
   ("convert-walks-wrong-order", PG + "transportation_1d.cpp", "  for (int i : srcOrder) {\n    su.push_back(pb.u[i]);", "  for (int i : snkOrder) {\n    su.push_back(pb.u[i]);", V, ["QI"]),
   ("result-sized-by-sorted-count", PG + "transportation_1d.cpp", "  std::vector<int> ret(nbSources_, snkOrder.empty() ? 0 : snkOrder.front());", "  std::vector<int> ret(srcOrder.size(), snkOrder.empty() ? 0 : snkOrder.front());", V, ["QI"]),
  ],
  "C15": [
+  ("is-turn-misses-FW", "src/parameters.cpp", "orient == CellOrientation::FW || orient == CellOrientation::FE;", "orient == CellOrientation::FE || orient == CellOrientation::FE;", V, ["TT"]),
+  ("benign-is-turn-listed-in-another-order", "src/parameters.cpp", "orient == CellOrientation::FW || orient == CellOrientation::FE;", "orient == CellOrientation::FE || orient == CellOrientation::FW;", H, []),
+  ("free-rectangle-scan-stops-at-a-partial-one", "src/coloquinte.cpp", "    if (newRow.height() == height()) {\n      ret.emplace_back(newRow, orientation);\n    }", "    if (newRow.height() != height()) {\n      break;\n    }\n    ret.emplace_back(newRow, orientation);", V, ["G13"]),
+  ("benign-free-rectangle-filter-as-guard-clause", "src/coloquinte.cpp", "    if (newRow.height() == height()) {\n      ret.emplace_back(newRow, orientation);\n    }", "    if (newRow.height() != height()) {\n      continue;\n    }\n    ret.emplace_back(newRow, orientation);", H, []),
+  ("free-rectangles-by-the-member-function", "src/coloquinte.cpp", "  bpl::get_rectangles(diff, row_set);", "  row_set.get_rectangles(diff);", V, ["G13"]),
   ("obstacles-inflated-after-weak-overlap-test", "src/coloquinte.cpp", "    row_set.insert(bpl::rectangle_data<int>(r.minX, r.minY, r.maxX, r.maxY),\n                   true);", "    if (r.maxY <= minY || r.minY >= maxY) {\n      continue;\n    }\n    row_set.insert(bpl::rectangle_data<int>(r.minX, minY, r.maxX, maxY), true);", V, ["G13"]),
   ("benign-solid-obstacles-inflated", "src/coloquinte.cpp", "    row_set.insert(bpl::rectangle_data<int>(r.minX, r.minY, r.maxX, r.maxY),\n                   true);", "    if (r.maxY <= minY || r.minY >= maxY || r.minY >= r.maxY) {\n      continue;\n    }\n    row_set.insert(bpl::rectangle_data<int>(r.minX, minY, r.maxX, maxY), true);", H, []),
   ("non-obstructions-removed", "src/coloquinte.cpp", "    if (!isObstruction(i)) {\n      continue;\n    }\n    obstacles.emplace_back(placement(i));", "    obstacles.emplace_back(placement(i));", V, ["G12"]),
@@ -133,12 +162,21 @@ M = {
   ("benign-merged-guard", "src/coloquinte.cpp", "    if (!isFixed(i)) {\n      continue;\n    }\n    if (!isObstruction(i)) {\n      continue;\n    }\n    obstacles.emplace_back(placement(i));", "    if (!isFixed(i) || !isObstruction(i)) {\n      continue;\n    }\n    obstacles.emplace_back(placement(i));", H, []),
  ],
  "C16": [
+  ("subdivision-product-in-32-bits", "src/utils/helpers.hpp", "    ret.push_back(min + static_cast<int>(static_cast<long long>(i) *\n                                         (max - min) / number));", "    ret.push_back(min + i * (max - min) / number);", V, ["BL"]),
+  ("benign-subdivision-widened-on-the-extent", "src/utils/helpers.hpp", "    ret.push_back(min + static_cast<int>(static_cast<long long>(i) *\n                                         (max - min) / number));", "    ret.push_back(min + static_cast<int>(i * static_cast<long long>(max - min) / number));", H, []),
   ("coarsen-without-remap", PG + "density_grid.cpp", "  binCells_ = newCells;\n  levelX_++;\n  updateCellToBin();", "  binCells_ = newCells;\n  levelX_++;", V, ["R7a"]),
   ("setBinCells-forgets-list", PG + "density_grid.cpp", "    cellBinY_[c] = y;\n  }\n  binCells_[x][y] = cells;\n}", "    cellBinY_[c] = y;\n  }\n}", V, ["R7b"]),
   ("refineY-uses-x-parent", PG + "density_grid.cpp", "      if (j != 0 && parentY(j) == parentY(j - 1)) {", "      if (j != 0 && parentX(j) == parentX(j - 1)) {", V, ["TW"]),
   ("zero-demand-cells-admitted", PG + "density_grid.cpp", "    if (cellDemand_[c] > 0LL) {\n      allCells.push_back(c);\n    }", "    allCells.push_back(c);", V, ["G14"]),
  ],
  "C17": [
+  ("max-pin-started-at-the-smallest-positive-float", PG + "net_model.cpp", "  float bestO = -std::numeric_limits<float>::infinity();", "  float bestO = std::numeric_limits<float>::min();", V, ["SN"]),
+  ("benign-max-pin-started-at-lowest", PG + "net_model.cpp", "  float bestO = -std::numeric_limits<float>::infinity();", "  float bestO = std::numeric_limits<float>::lowest();", H, []),
+  ("min-pin-also-keeps-the-last-pin-on-ties", PG + "net_model.cpp", "    if (pos < bestPos) {\n      bestI = i;", "    if (pos <= bestPos) {\n      bestI = i;", V, ["B2"]),
+  ("max-pin-keeps-the-first-pin-on-ties", PG + "net_model.cpp", "    if (pos >= bestPos) {\n      bestI = i;", "    if (pos > bestPos) {\n      bestI = i;", V, ["B2"]),
+  ("benign-second-stamp-guarded-by-distinct-bounds", PG + "net_model.cpp", "    if (i == maxI) {\n      continue;\n    }\n    float distMax", "    if (i == maxI || maxI == minI) {\n      continue;\n    }\n    float distMax", H, []),
+  ("net-weights-kept-when-none-given", "src/coloquinte.cpp", "  netWeights_ = weights;\n  netWeights_.resize(", "  if (!weights.empty()) {\n    netWeights_ = weights;\n  }\n  netWeights_.resize(", V, ["PV"]),
+  ("benign-net-weights-assign", "src/coloquinte.cpp", "  netWeights_ = weights;\n  netWeights_.resize(", "  netWeights_.assign(weights.begin(), weights.end());\n  netWeights_.resize(", H, []),
   ("rhs-without-weight", PG + "net_model.cpp", "  rhs_[c1] += weight * (pos - offs1);", "  rhs_[c1] += (pos - offs1);", V, ["QD"]),
   ("star-weight-ignores-net-weight", PG + "net_model.cpp", "    float w = topo_.netWeight(net) / nb;\n    int c = addCell(0.0f);", "    float w = 1.0f / nb;\n    int c = addCell(0.0f);", V, ["QD"]),
   ("weight-squared", PG + "net_model.cpp", "  float w = topo_.netWeight(net) / (topo_.nbPins(net) - 1);\n  for (int i = 0; i < topo_.nbPins(net); ++i) {\n    float pos", "  float w = topo_.netWeight(net) * topo_.netWeight(net) / (topo_.nbPins(net) - 1);\n  for (int i = 0; i < topo_.nbPins(net); ++i) {\n    float pos", V, ["QD"]),
@@ -150,6 +188,11 @@ M = {
   ("benign-commuted-product", PG + "net_model.cpp", "  rhs_[c1] += weight * (pos - offs1);", "  rhs_[c1] += (pos - offs1) * weight;", H, []),
  ],
  "C18": [
+  ("carry-credited-in-widths", "src/coloquinte.cpp", "      missingArea += h * (fracW - newW);", "      missingArea += w * (fracW - newW);", V, ["CY"]),
+  ("rounding-carry-declared-per-cell", "src/coloquinte.cpp", "  double missingArea = 0.0;\n  for (int i = 0; i < nbCells(); ++i) {\n    if (!cellIsFixed_[i]) {\n      int h = cellHeight_[i];\n      int w = cellWidth_[i];\n      if (h <= 0 || w <= 0) {\n        continue;\n      }\n", "  for (int i = 0; i < nbCells(); ++i) {\n    if (!cellIsFixed_[i]) {\n      int h = cellHeight_[i];\n      int w = cellWidth_[i];\n      if (h <= 0 || w <= 0) {\n        continue;\n      }\n      double missingArea = 0.0;\n", V, ["CY"]),
+  ("rounding-carry-reset-per-cell", "src/coloquinte.cpp", "      double fracW = w * expansionFactor;\n      // Force the expansion to a maximum", "      missingArea = 0.0;\n      double fracW = w * expansionFactor;\n      // Force the expansion to a maximum", V, ["CY"]),
+  ("benign-rounding-carry-as-long-double", "src/coloquinte.cpp", "  double missingArea = 0.0;\n  for (int i = 0; i < nbCells(); ++i) {\n    if (!cellIsFixed_[i]) {\n      int h = cellHeight_[i];", "  double missingArea{0.0};\n  for (int i = 0; i < nbCells(); ++i) {\n    if (!cellIsFixed_[i]) {\n      const int h = cellHeight_[i];", H, []),
+  ("expansion-factor-truncated", "src/coloquinte.cpp", "      expandedArea += expansionFactor[i] * area(i);", "      expandedArea += (long long)expansionFactor[i] * area(i);", V, ["NN"]),
   ("region-scan-bounded-by-cell-minx", "src/coloquinte.cpp", "      for (auto [r, e] : expansionMap) {\n        if (r.intersects(place)) {\n          expansion = std::max(expansion, e);\n        }\n      }", "      auto last = std::upper_bound(expansionMap.begin(), expansionMap.end(), place.minX,\n                                   [](int x, const std::pair<Rectangle, float> &a) { return x < a.first.minX; });\n      for (auto it = expansionMap.begin(); it != last; ++it) {\n        if (it->first.intersects(place)) {\n          expansion = std::max(expansion, it->second);\n        }\n      }", V, ["RM"]),
   ("benign-region-scan-bounded-by-cell-maxx", "src/coloquinte.cpp", "      for (auto [r, e] : expansionMap) {\n        if (r.intersects(place)) {\n          expansion = std::max(expansion, e);\n        }\n      }", "      auto last = std::upper_bound(expansionMap.begin(), expansionMap.end(), place.maxX,\n                                   [](int x, const std::pair<Rectangle, float> &a) { return x < a.first.minX; });\n      for (auto it = expansionMap.begin(); it != last; ++it) {\n        if (it->first.intersects(place)) {\n          expansion = std::max(expansion, it->second);\n        }\n      }", H, []),
   ("fixed-cells-expanded", "src/coloquinte.cpp", "    if (!cellIsFixed_[i]) {\n      // Just round down here", "    if (true) {\n      // Just round down here", V, ["G15"]),
@@ -165,6 +208,8 @@ M = {
   ("expansion-resets-heights", "src/coloquinte.cpp", "      cellWidth_[i] = newW;\n", "      cellWidth_[i] = newW;\n      cellHeight_[i] = h;\n", V, ["W5"]),
  ],
  "C19": [
+  ("square-size-bounded-through-a-product", "src/parameters.cpp", "  if (lineReoptSize > 64 || diagReoptSize > 64 || squareReoptSize > 8) {", "  if (lineReoptSize > 64 || diagReoptSize > 64 || squareReoptSize * squareReoptSize > 64) {", V, ["VP"]),
+  ("benign-bounds-through-named-constants", "src/parameters.cpp", "  if (lineReoptSize > 64 || diagReoptSize > 64 || squareReoptSize > 8) {", "  const int maxNbBins = 64;\n  const int maxSide = 8;\n  if (lineReoptSize > maxNbBins || diagReoptSize > maxNbBins || squareReoptSize > maxSide) {", H, []),
   ("benign-orientation-names-by-table", "src/parameters.cpp", "std::string toString(CellOrientation o) {\n  switch (o) {\n    case CellOrientation::N:\n      return \"N\";\n    case CellOrientation::S:\n      return \"S\";\n    case CellOrientation::E:\n      return \"E\";\n    case CellOrientation::W:\n      return \"W\";\n    case CellOrientation::FN:\n      return \"FN\";\n    case CellOrientation::FS:\n      return \"FS\";\n    case CellOrientation::FE:\n      return \"FE\";\n    case CellOrientation::FW:\n      return \"FW\";\n    case CellOrientation::INVALID:\n      return \"INVALID\";\n    default:\n      return \"UnknownCellOrientation\";\n  }\n}", "std::string toString(CellOrientation o) {\n  static const char *const names[] = {\"N\", \"S\", \"W\", \"E\", \"FN\", \"FS\", \"FW\", \"FE\", \"INVALID\"};\n  int ind = static_cast<int>(o);\n  if (ind < 0 || ind > static_cast<int>(CellOrientation::INVALID)) {\n    return \"UnknownCellOrientation\";\n  }\n  return names[ind];\n}", H, []),
   ("penalty-ctor-unchecked", "src/parameters.cpp", "PenaltyParameters::PenaltyParameters(int effort) {\n  checkEffort(effort);\n", "PenaltyParameters::PenaltyParameters(int effort) {\n", V, ["B1"]),
   ("setCellX-length-unchecked", "src/coloquinte.cpp", "void Circuit::setCellX(const std::vector<int> &x) {\n  if ((int)x.size() != nbCells()) {\n    throw std::runtime_error(\n        \"Number of elements is not the same as the number of cells of the \"\n        \"circuit\");\n  }\n", "void Circuit::setCellX(const std::vector<int> &x) {\n", V, ["G17"]),
@@ -176,6 +221,10 @@ M = {
   ("benign-mirrored-length-test", "src/coloquinte.cpp", "void Circuit::setCellY(const std::vector<int> &y) {\n  if ((int)y.size() != nbCells()) {", "void Circuit::setCellY(const std::vector<int> &y) {\n  if (nbCells() != (int)y.size()) {", H, []),
  ],
  "C20": [
+  ("aux-lists-the-export-path", "src/export.cpp", "  std::string name = filename.substr(filename.find_last_of(\"/\\\\\") + 1);", "  std::string name = filename;", V, ["XA"]),
+  ("benign-aux-basename-by-rfind", "src/export.cpp", "  std::string name = filename.substr(filename.find_last_of(\"/\\\\\") + 1);", "  std::string name = filename.substr(filename.rfind('/') + 1);", H, []),
+  ("scl-count-from-computed-rows", "src/export.cpp", "  f << \"NumRows : \" << circuit.nbRows() << \"\\n\\n\";\n  for (int i = 0; i < circuit.nbRows(); ++i) {", "  f << \"NumRows : \" << circuit.computeRows().size() << \"\\n\\n\";\n  for (int i = 0; i < circuit.nbRows(); ++i) {", V, ["XF"]),
+  ("benign-scl-count-from-rows-vector", "src/export.cpp", "  f << \"NumRows : \" << circuit.nbRows() << \"\\n\\n\";\n  for (int i = 0; i < circuit.nbRows(); ++i) {", "  f << \"NumRows : \" << circuit.rows().size() << \"\\n\\n\";\n  for (int i = 0; i < circuit.nbRows(); ++i) {", H, []),
   ("orientation-names-table-in-case-order", "src/parameters.cpp", "std::string toString(CellOrientation o) {\n  switch (o) {\n    case CellOrientation::N:\n      return \"N\";\n    case CellOrientation::S:\n      return \"S\";\n    case CellOrientation::E:\n      return \"E\";\n    case CellOrientation::W:\n      return \"W\";\n    case CellOrientation::FN:\n      return \"FN\";\n    case CellOrientation::FS:\n      return \"FS\";\n    case CellOrientation::FE:\n      return \"FE\";\n    case CellOrientation::FW:\n      return \"FW\";\n    case CellOrientation::INVALID:\n      return \"INVALID\";\n    default:\n      return \"UnknownCellOrientation\";\n  }\n}", "std::string toString(CellOrientation o) {\n  static const char *const names[] = {\"N\", \"S\", \"E\", \"W\", \"FN\", \"FS\", \"FE\", \"FW\", \"INVALID\"};\n  int ind = static_cast<int>(o);\n  if (ind < 0 || ind > static_cast<int>(CellOrientation::INVALID)) {\n    return \"UnknownCellOrientation\";\n  }\n  return names[ind];\n}", V, ["N4"]),
   ("benign-orientation-names-by-table", "src/parameters.cpp", "std::string toString(CellOrientation o) {\n  switch (o) {\n    case CellOrientation::N:\n      return \"N\";\n    case CellOrientation::S:\n      return \"S\";\n    case CellOrientation::E:\n      return \"E\";\n    case CellOrientation::W:\n      return \"W\";\n    case CellOrientation::FN:\n      return \"FN\";\n    case CellOrientation::FS:\n      return \"FS\";\n    case CellOrientation::FE:\n      return \"FE\";\n    case CellOrientation::FW:\n      return \"FW\";\n    case CellOrientation::INVALID:\n      return \"INVALID\";\n    default:\n      return \"UnknownCellOrientation\";\n  }\n}", "std::string toString(CellOrientation o) {\n  static const char *const names[] = {\"N\", \"S\", \"W\", \"E\", \"FN\", \"FS\", \"FW\", \"FE\", \"INVALID\"};\n  int ind = static_cast<int>(o);\n  if (ind < 0 || ind > static_cast<int>(CellOrientation::INVALID)) {\n    return \"UnknownCellOrientation\";\n  }\n  return names[ind];\n}", H, []),
   ("FW-bound-to-FE", "pycoloquinte/module.cpp", ".value(\"FW\", CellOrientation::FW, \"Flipped + West\")", ".value(\"FW\", CellOrientation::FE, \"Flipped + West\")", V, ["N1"]),
